@@ -176,6 +176,7 @@ func (server *SugarDB) handleCommand(ctx context.Context, message []byte, conn *
 	}
 
 	if !server.isInCluster() || !synchronize {
+		verifPointCmd("cmd.before_handler", 0, message)
 		res, err := handler(server.getHandlerFuncParams(ctx, cmd, conn))
 		if err != nil {
 			// The command is over: a state copy (snapshot, AOF rewrite) must not wait for it for ever.
@@ -183,12 +184,14 @@ func (server *SugarDB) handleCommand(ctx context.Context, message []byte, conn *
 			return nil, err
 		}
 
+		verifPointCmd("cmd.after_handler", 0, message)
 		if internal.IsWriteCommand(command, subCommand) && !replay {
 			// Log the command under the database it has just been executed in
 			// (the embedded caller's database is not in tcpClients).
 			server.aofEngine.LogCommand(ctx.Value("Database").(int), message)
 		}
 
+		verifPointCmd("cmd.after_log", 0, message)
 		server.stateMutationInProgress.Store(false)
 
 		return res, err
